@@ -126,6 +126,11 @@ func newPackage(program *loader.Program, pkgInfo *loader.PackageInfo, plugins []
 
 		changed := false
 		calls := append(fileInfo.undefined, fileInfo.derived...)
+		// Register the calls in source order, whether or not they already resolve into an old
+		// derived.gen.go, so that the generated file does not depend on what that file contained.
+		sort.SliceStable(calls, func(i, j int) bool {
+			return calls[i].Expr.Pos() < calls[j].Expr.Pos()
+		})
 		for _, call := range calls {
 			// log.Printf("call: %v", call.Name)
 			if call.HasUndefined() {
